@@ -103,6 +103,10 @@ func dereferenceJSONPointer(s *Schema, sptr string) (_ *Schema, err error) {
 			if len(seg) > 1 && seg[0] == '0' {
 				return nil, fmt.Errorf("segment %q has leading zeroes", seg)
 			}
+			// RFC 6901 array indexes are unsigned: strconv.Atoi would accept "+1" and "-0".
+			if strings.TrimLeft(seg, "0123456789") != "" {
+				return nil, fmt.Errorf("invalid int: %q", seg)
+			}
 			n, err := strconv.Atoi(seg)
 			if err != nil {
 				return nil, fmt.Errorf("invalid int: %q", seg)
